@@ -102,6 +102,8 @@ namespace verif48 {
     //! list of accepted steps (t, dt) and of all attempts
     mutable std::vector<std::pair<double, double>> attempts;
     mutable std::vector<std::pair<double, double>> outputs;
+    //! called at the very beginning of every attempt (C50: leak detection)
+    std::function<void(mtest::StudyCurrentState&, real, real)> on_attempt_start;
     /*! physics hooks (C50): called with the real state */
     std::function<void(mtest::StudyCurrentState&, real, real)> on_prepare;
     //! called at each residual evaluation; fills the residual so that `u1 -= r` gives the new iterate
@@ -128,6 +130,7 @@ namespace verif48 {
       }
       cur = script[pos++];
       call = 0;
+      if (on_attempt_start) on_attempt_start(s, t, dt);
       attempts.push_back({t, dt});
       log << " a " << hex(t) << " " << hex(dt);
       if (cur.kind == 4) {
